@@ -26,7 +26,7 @@ pub fn name_pool(rng: &mut Rng, valid_only: bool) -> Vec<String> {
             2 => format!("{}{}", rng.pick(&["s", "S", "dir", "Dir", "stream"]), rng.below(4)),
             _ => gen_name(rng),
         };
-        if nm.is_empty() || nm == "." || nm == ".." || nm.contains('/') || nm.contains('\u{0}') {
+        if nm.is_empty() || nm == "." || nm == ".." || nm.contains('/') {
             continue;
         }
         if valid_only && !valid_name(&nm) {
